@@ -11,7 +11,8 @@ Layering
   * PKCS115_SigScheme.sign: byte-exact I2OSP(OS2IP(EM)^d mod n, k) through the ASSUMED value contract of
     RsaKey._decrypt_to_bytes (sig_common.add_rsa_key), fault check, TypeError for a public key, msg_hash untouched.
   * RsaKey._encrypt (the contract stated in sig_common), _decrypt, size_in_bits/size_in_bytes, and -- registry(body=True) --
-    what is provable of the real body of _decrypt_to_bytes (refusals, blinding factor range and tape, result length).
+    what is provable of the real body of _decrypt_to_bytes: refusals, exactly one draw of the SYSTEM tape requested as
+    random_range(1, n - 1) (C18), result length k, and the exact blinded-CRT expression it returns (spec.rfc8017.rsadp_crt_blinded).
 Integer arithmetic: spec.mathint (assumed exact: C14/C16, bounded/bigint.py); hash value uninterpreted (bounded/hashes.py).
 """
 from vf.pyvc.contracts import Contract, ClassContract
@@ -31,7 +32,7 @@ K_ = S + 'octets(%s)' % N_
 # ---------------------------------------------------------------- DER leaves (assumed; everything above them is executed)
 
 def add_der_leaves(reg):
-    ASN1 = 'DER encoders of Crypto.Util.asn1 (C13: the asn1 area; bounded: bounded/asn1 round trips)'
+    ASN1 = 'DER encoders of Crypto.Util.asn1 (to be proved by the asn1 area under C13; no bounded harness: unchecked)'
     reg.add(Contract(A + 'DerObject._definite_form', params={'length': 'nat'}, requires=['length >= 0'],
                      returns='spec.der.encode_length(length)', modifies=[],
                      # spec.der.encode_length stays opaque in every proof here; its short form (X.690 8.1.3.4: one octet for
@@ -187,3 +188,46 @@ def units(prop, tier):
                          [KEY + '._encrypt', KEY + '._decrypt', KEY + '.size_in_bits', KEY + '.size_in_bytes']))
     out.append(pyvc_unit(prop, 'sig.pkcs1.RsaKey._decrypt_to_bytes.body', (lambda: registry(True)), [KEY + '._decrypt_to_bytes']))
     return out
+
+
+# ====================================================================================================================
+# GENUINE FINDING (natively confirmed, obligation left registered: C04 ..._EMSA_PKCS1_V1_5_ENCODE.raises_only.TypeError, 2 paths)
+#   _EMSA_PKCS1_V1_5_ENCODE raises TypeError("DigestInfo is too long for this RSA key") when emLen < tLen + 11; verify() only
+#   catches ValueError and sign() catches nothing, so with a key too short for the hash BOTH let a TypeError escape where C04
+#   demands ValueError from verify() and sign()'s docstring promises ValueError.
+#   witness: 512-bit key (k = 64) from RSA.construct((n, 65537, d, p, q)) with two 256-bit primes, h = SHA512.new(b'abc')
+#   (tLen = 83 > k - 11):  pkcs1_15.new(key).verify(h, b'\x01' * 64) -> TypeError;  pkcs1_15.new(key).sign(h) -> TypeError.
+#   With `raise ValueError(` at that line the unit sig.pkcs1.emsa_encode is 19/19 discharged (tools/mut.py, exit 0).
+#
+# NOT PROVED: RsaKey._decrypt_to_bytes value == I2OSP(c^d mod n, k): assumed (sig_common.add_rsa_key).  The body unit proves the
+#   result to be I2OSP(r^-1 * m' mod n, k) with m' the blinded CRT recombination; m' == (c r^e)^d mod n needs Fermat/CRT over the
+#   key invariants of C05 with `modpow` uninterpreted -- outside the engine.
+# NOT PROVED: termination / probability statements (a blinding factor sharing a factor with n makes Integer.inverse raise
+#   ValueError: probability (p + q - 2)/(n - 1); it is part of the stated `raises` of the body contract).
+# NOT STATED: signature arguments of type bytearray / memoryview (contracts take `bytes`); hash objects without an `oid`.
+# TRUSTED size fact (spec/rfc8017.py SIG of digest_info): len(DigestInfo without NULL) <= len(DigestInfo with NULL) -- used in
+#   verify's proof only (the code encodes both variants before comparing; the RFC-level spec compares the NULL variant first).
+#
+# Mutants (tools/mut.py C04 ... --only <unit>), obligation that caught each:
+#   pkcs1_15.py verify  `len(signature) != k` -> `<`                          exit 1  verify.raises_iff.ValueError.if
+#   pkcs1_15.py verify  `if not algorithm_is_md:` -> `if algorithm_is_md:`     exit 1  verify.raises_iff.ValueError.if / .only_if
+#   pkcs1_15.py verify  ENCODE(msg_hash, k, False) -> (.., True) in the list   exit 1  verify.raises_iff.ValueError.only_if
+#   pkcs1_15.py verify  rename signature_int -> s_int                          exit 0
+#   pkcs1_15.py ENCODE  `emLen<len(digestInfo)+11` -> `+10`                    exit 1  ENCODE.raises_iff.ValueError.if, ensures.ps_min
+#   pkcs1_15.py ENCODE  b'\x00\x01' -> b'\x00\x02'                            exit 1  ENCODE.ensures.em
+#   pkcs1_15.py ENCODE  `digestAlgo.append(DerNull().encode())` -> `pass`      exit 1  ENCODE.ensures.em, ensures.ps_min, raises_iff.ValueError.if
+#   pkcs1_15.py ENCODE  rename PS -> pad                                       only the finding above (same as the unchanged tree)
+#   pkcs1_15.py ENCODE  `raise TypeError(` -> `raise ValueError(`              exit 0  (the repair)
+#   pkcs1_15.py sign    fault check -> `if False:`                             exit 1  sign.raises_iff.ValueError.if, ensures.verifies
+#   pkcs1_15.py sign    ENCODE(msg_hash, k) -> ENCODE(msg_hash, k, False)      exit 1  sign.ensures.rfc8017_8_2_1 (+4)
+#   pkcs1_15.py sign    fault check weakened `... and em_int != 1`             exit 1  sign.raises_iff.ValueError.if, ensures.verifies
+#   pkcs1_15.py sign    rename em -> enc                                       exit 0
+#   RSA.py _encrypt     `0 <= plaintext < self._n` -> `<=`                     exit 1  _encrypt.raises_iff.ValueError.if
+#   RSA.py _encrypt     modulus `self._n` -> `self._n - 1`                     exit 1  _encrypt.ensures.rsaep
+#   RSA.py size_in_bytes `(bits - 1) // 8 + 1` -> `bits // 8 + 1`              exit 1  size_in_bytes.ensures.k
+#   RSA.py _decrypt     `..._decrypt_to_bytes(ciphertext)` -> `...[1:]`        exit 1  _decrypt.ensures.rsadp
+#   RSA.py _decrypt_to_bytes  min_inclusive=1 -> 0                             exit 1  body.ensures.blinding_range, ensures.unblinded, raises_iff.ValueError
+#   RSA.py _decrypt_to_bytes  max_exclusive=self._n -> max_inclusive=self._n   exit 1  body.ensures.blinding_range, ensures.unblinded, raises_iff.ValueError
+#   RSA.py _decrypt_to_bytes  `0 <= ciphertext` -> `0 < ciphertext`            exit 1  body.raises_iff.ValueError.only_if, on_raise.ValueError
+#   RSA.py _decrypt_to_bytes  `(m2 - m1)` -> `(m1 - m2)`                       exit 1  body.ensures.unblinded
+#   RSA.py _decrypt_to_bytes  rename cp -> c_bl                                exit 0
